@@ -154,9 +154,10 @@ func perturb(k int, round int) {
 
 // unrelatedEvolution turns over another population built like the scenario's own (same constructor, same start genome: its
 // structural mutations collide with the scenario's), seeded from the clock.  The caller re-seeds afterwards.
-func unrelatedEvolution(sc scenario, epochs int) {
+func unrelatedEvolution(sc scenario, epochs int) { unrelatedEvolutionWith(sc, sc.options(), epochs) }
+
+func unrelatedEvolutionWith(sc scenario, opts *neat.Options, epochs int) {
 	rand.Seed(time.Now().UnixNano())
-	opts := sc.options()
 	rec := &epochRec{in: newInterner(), stats: map[string]int{}}
 	p, _, _, err := construct(sc, opts, rec)
 	if err != nil || p == nil {
@@ -207,8 +208,22 @@ func runDetScenario(si int, sc scenario, pk int, emit func(map[string]interface{
 	if emit == nil {
 		emit = func(map[string]interface{}) {}
 	}
-	rand.Seed(sc.Seed)
 	opts := sc.options()
+	if pk%5 == 2 {
+		// the options OBJECT had an earlier life: it was used for an unrelated evolution while its activator probabilities held
+		// other values, which were then set to the scenario's values IN PLACE (a parameter sweep re-using one Options value).
+		// Field by field the options are equal to a fresh set; outcomes must not depend on the identity or history of the object.
+		want := append([]float64{}, opts.NodeActivatorsProb...)
+		for i := range opts.NodeActivatorsProb {
+			opts.NodeActivatorsProb[i] = []float64{0.95, 0.05}[i%2]
+		}
+		saveNode := opts.MutateAddNodeProb
+		opts.MutateAddNodeProb = 0.6
+		unrelatedEvolutionWith(sc, opts, 2)
+		opts.MutateAddNodeProb = saveNode
+		copy(opts.NodeActivatorsProb, want)
+	}
+	rand.Seed(sc.Seed)
 	if sc.Via == "execute" {
 		// the way every caller of the library evolves a population: seed the global source, then Experiment.Execute
 		// (RandSeed left at its zero value, as in all the repository's tests and examples)
